@@ -7,7 +7,9 @@ comes from the case, so that ids and bucket key order are reproducible), and - f
 RNG (shuffle = reverse, random.choice = scripted index).  Ids are reported as ordinals (index of the
 recording's first save in the history), never as text.  A case may also hold saves that FAIL part-way on S3
 ("failed": the fake bucket refuses the n-th mutation of that save); a recording none of whose saves succeeded has an
-ordinal >= 4500."""
+ordinal >= 4500.  A case may name a process time zone ("tz": the whole case - saves and lookup - runs with
+os.environ['TZ'] set to it and time.tzset(), as on a host that is not on UTC; restored afterwards): the lookup
+window is documented as naive UTC, so the answers must not depend on the zone of the process."""
 import atexit
 import copy
 import datetime
@@ -15,6 +17,7 @@ import json
 import os
 import random as _random
 import shutil
+import time
 import types
 import uuid
 
@@ -72,10 +75,10 @@ def meta_of(items):
 FAILED_BASE = 4500     # ordinals of recordings whose every save failed (never stored: no index in the history of saves)
 
 
-def populated(hist, kp, decoys=None, failed=None):
+def populated(hist, kp, decoys=None, failed=None, tz=None):
     decoys = DECOYS.get(kp, []) if decoys is None else decoys
     failed = failed or []
-    key = json.dumps([hist, kp, decoys, failed], sort_keys=True)
+    key = json.dumps([hist, kp, decoys, failed, tz], sort_keys=True)
     if key in _cache:
         return _cache[key]
     if len(_cache) > 6:
@@ -258,10 +261,35 @@ def listing(st, name, case):
     return out
 
 
+def utc_offset_seconds():
+    """the offset of the process's time zone (as the C library sees it) at the harness's base date"""
+    return int(BASE.replace(hour=12).astimezone().utcoffset().total_seconds())
+
+
 def run_lookup(case):
     if case.get("kind") == "cat":
         return run_cat(case)
-    st = populated(case["hist"], case["kp"], case.get("decoys"), case.get("failed"))
+    tz = case.get("tz")
+    if not tz:
+        return run_lookup_here(case)
+    # the same saves and the same lookup in a process whose time zone is not UTC (the clock itself stays the fake one)
+    saved = os.environ.get("TZ")
+    os.environ["TZ"] = tz
+    time.tzset()
+    try:
+        obs = run_lookup_here(case)
+        obs["tz_offset"] = utc_offset_seconds()
+        return obs
+    finally:
+        if saved is None:
+            os.environ.pop("TZ", None)
+        else:
+            os.environ["TZ"] = saved
+        time.tzset()
+
+
+def run_lookup_here(case):
+    st = populated(case["hist"], case["kp"], case.get("decoys"), case.get("failed"), case.get("tz"))
     names = os.listdir(st["dir"])
     obs = {"listdir": [st["files"].get(n, -1) for n in names]}
     if case.get("failed"):
